@@ -6,6 +6,7 @@ import Penguin.Basic.Bytes
 import Penguin.Basic.Loop
 import Penguin.Model.Frame
 import Penguin.Spec.Layout
+import Penguin.Model.WsMsg
 
 open Penguin
 
@@ -37,6 +38,35 @@ def parseFrame : List String → Option Frame
 def step (_ : Unit) (line : String) : Unit × String :=
   let out :=
     match tokens line with
+    | ["wsfrom", kind, h] =>
+      -- `From<tungstenite::Message>`: kind ∈ text binary ping pong close closenone frame
+      match ofHex h with
+      | some b =>
+        let m : Option WsMsg.TMsg := match kind with
+          | "text" => some (.text b) | "binary" => some (.binary b) | "ping" => some (.ping b) | "pong" => some (.pong b)
+          | "close" => some (.close (some (1000, b))) | "closenone" => some (.close none) | "frame" => some .frame
+          | _ => none
+        match m with
+        | none => "bad-op"
+        | some m =>
+          match WsMsg.fromT m with
+          | none => "panic"
+          | some (.binary d) => s!"binary {hexOrDash d}"
+          | some .ping => "ping" | some .pong => "pong" | some .close => "close"
+      | none => "bad-op"
+    | ["wsto", kind, h] =>
+      match ofHex h with
+      | some b =>
+        let m : Option WsMsg.Msg := match kind with
+          | "binary" => some (.binary b) | "ping" => some .ping | "pong" => some .pong | "close" => some .close | _ => none
+        match m with
+        | none => "bad-op"
+        | some m =>
+          match WsMsg.toT m with
+          | .binary d => s!"binary {hexOrDash d}" | .text d => s!"text {hexOrDash d}"
+          | .ping d => s!"ping {hexOrDash d}" | .pong d => s!"pong {hexOrDash d}"
+          | .close none => "closenone" | .close (some (c, d)) => s!"close {c} {hexOrDash d}" | .frame => "frame"
+      | none => "bad-op"
     | ["dec", h] =>
       match ofHex h with
       | some bs => showDec (decode bs)
